@@ -19,6 +19,9 @@ STDLIB_AXIOMS = {
     "ClassicalDedekindReals.sig_not_dec",
     "FunctionalExtensionality.functional_extensionality_dep",
     "Classical_Prop.classic",
+    # Floats.FloatAxioms: the standard library's specification of the primitive binary64 comparison (PrimFloat.ltb computes SpecFloat.SFltb);
+    # used by Common/FloatOrder.v to show that "strictly lower" on binary64 is transitive also in the presence of NaN
+    "FloatAxioms.ltb_spec",
 }
 
 
